@@ -1,7 +1,7 @@
 """C14 distinct repeating-group definitions never share metadata: theorems Props.C14 about the FIXED f8c (probe on a hash hit: every group of
 every message generated from its own definition for every closed insertion sequence, boundedness of the probe, key stability, facts about the key
 group_hash, regression theorems for the former finding witnesses) + stream `f8c`: schemas reusing one count field with identical / different /
-structurally close / equal-key definitions (order-only, flag-only, component-only, manufactured key collisions), compiled by the fresh f8c and g++,
+structurally close / equal-key definitions (order-only, flag-only, component-only, manufactured key collisions incl. a definition that is a prefix of the other), compiled by the fresh f8c and g++,
 every message's group read back and round-tripped; every family must PASS the specification oracle."""
 import vlib, gen_facts, f8cfacts, f8ctv
 
@@ -45,7 +45,7 @@ def run(res, replay=None):
         for p in sorted(__import__('glob').glob(os.path.join(vlib.ROOT, 'corpus', 'C14', '*.txt'))):
             cases += f8ctv.parse_replay(p)
         if not thorough:
-            cases = cases[:3]       # quick: the three headline regressions (key collision {2,100}/{3,8261}, order-only, flag-only)
+            cases = cases[:4]       # quick: the prefix-with-equal-key regression and the three headline regressions (key collision {2,100}/{3,8261}, order-only, flag-only)
         cases += gen(rng, thorough)
     res.assumptions += ['std::map modelled as an association list with unique keys; the V<n> numbering of shared trait arrays is not observable in the metadata and not modelled',
                         'the option --noshared (every hash unique) is never passed and not modelled',
